@@ -600,7 +600,7 @@ func crcTotal(param string) int64 {
 	var n int64
 	for i := range bases {
 		if len(bases[i].enc) > crcMaxBase(param) {
-			continue // quick: the two smallest bases; thorough: all but the 6 KB one (it only differs by a long bitmap)
+			continue // all but the 6 KB base (it only differs by a long bitmap)
 		}
 		n += int64(len(bases[i].enc)-4) * int64(len(substAlpha))
 	}
@@ -608,10 +608,7 @@ func crcTotal(param string) int64 {
 }
 
 func crcMaxBase(param string) int {
-	if param == "thorough" {
-		return 200
-	}
-	return 20
+	return 200
 }
 
 // a base with one body byte replaced and the checksum recomputed: not a
